@@ -179,6 +179,8 @@ def run(chk):
     rule_used(chk)
     import c18
     c18.rule_build_eval(chk, prefix="C05.build")
+    import c02
+    c02.rule_usage_eval(chk, prefix="C05.usage")      # which globals an entry point reaches (is_used is computed from it)
     if not rule_stage_eval(chk):
         rule_thread_group(chk)
 
